@@ -37,7 +37,7 @@ PROB = {
     'numpy': {'xref': '`nopeX`', 'param': 'Parameters\n----------\nzzX: int\n    nothing'},
 }
 POSITIONS = ['p1l1', 'p1l2', 'p2', 'li', 'fb']
-OWNERS = ['module', 'class', 'function', 'method', 'attribute', 'inherited', 'reexported', 'classfield', 'classfield+inline']
+OWNERS = ['module', 'class', 'function', 'method', 'attribute', 'inherited', 'reexported', 'classfield', 'classfield+inline', 'typefield+inline', 'ivar-two-sites', 'attr-redefined']
 # (text on the opening line, leading lines below the quotes)
 LAYOUTS: List[Tuple[bool, List[str]]] = [(True, []), (False, []), (False, ['']), (False, ['', '']), (False, ['WS']), (False, ['TRAIL'])]
 
@@ -81,11 +81,14 @@ def module_source(owner: str, fmt: str, kind: str, pos: str, layout: Tuple[bool,
     if b is None:
         return None
     body, pidx, sidx = b
-    if kind == 'param' and owner in ('module', 'attribute', 'class'):
+    ATTRS = ('attribute', 'typefield+inline', 'ivar-two-sites', 'attr-redefined')
+    if kind == 'param' and owner in ('module', 'class') + ATTRS:
         return None
-    if pos == 'fb' and owner in ('module', 'attribute', 'class'):
+    if pos == 'fb' and owner in ('module', 'class') + ATTRS:
         return None
-    if owner in ('inherited', 'reexported', 'classfield', 'classfield+inline') and (nest or raw or layout[1] not in ([], [''])):
+    if owner in ATTRS[1:] and fmt in ('google', 'numpy'):
+        return None
+    if owner in ('inherited', 'reexported', 'classfield', 'classfield+inline') + ATTRS[1:] and (nest or raw or layout[1] not in ([], [''])):
         return None          # these owners vary the location of the object, not the layout of the literal
     if owner.startswith('classfield'):
         # the problem sits in the body of an @ivar field of the class docstring, which documents the attribute q
@@ -151,6 +154,24 @@ def module_source(owner: str, fmt: str, kind: str, pos: str, layout: Tuple[bool,
         if owner == 'inherited':
             # the docstring is shown again on an overriding method without docstring, here and in a companion module
             lines += ['class Sub(K):', '    def m(self, a):', '        pass']
+    elif owner == 'typefield+inline':
+        # the type of q comes from a field of the class docstring (an earlier line record), its documentation from its own inline docstring
+        d, off = doc(ind + '    ')
+        tag = '@type q: C{int}' if fmt == 'epytext' else ':type q: int'
+        lines += pre + [ind + 'class K:', ind + '    """', ind + '    Class doc.', '', ind + '    ' + tag, ind + '    """', ind + '    q = 1']
+        base = len(lines)
+        lines += d
+    elif owner == 'ivar-two-sites':
+        # an instance variable documented at two assignment sites: the docstring shown is the last one
+        d, off = doc(ind + '        ')
+        lines += pre + [ind + 'class K:', ind + '    def __init__(self):', ind + '        self.q = 1', ind + '        """first docstring of q"""', ind + '    def other(self):', ind + '        self.q = 2']
+        base = len(lines)
+        lines += d
+    elif owner == 'attr-redefined':
+        d, off = doc(ind)
+        lines += pre + [ind + 'v = 0', ind + '"""first docstring of v"""', ind + 'other = 2', ind + 'v = 1']
+        base = len(lines)
+        lines += d
     elif owner == 'reexported':
         d, off = doc('    ')
         lines += ['def REEXPORTED(a):']
